@@ -23,6 +23,9 @@ RULES = {
     "R3": "colour scaling is per component: inside x_parse_color's comprehension the scale depends on that component's own digit count",
     "R4": "fallbacks never block: query_terminal returns None before touching the terminal when queries are disabled; every caller guards its "
           "use of the response; read_tty is called with `timeout or _query_timeout`; set_query_timeout rejects <= 0",
+    "R6": "bounded waiting: read_tty's timed loop continues only while (timeout < 0 or elapsed < timeout) and more(input); select() waits at most the "
+          "remaining time (timeout - elapsed, or None only for a negative = infinite timeout); the elapsed time is recomputed after every wait; the "
+          "non-blocking mode (timeout None) polls with a zero select timeout; VMIN is reset to 0 after the blocking min-read",
     "R5": "style selection: _styles lists every concrete BaseImage subclass once in the documented preference order (kitty, iterm2, block; "
           "text-based last); auto_image_class returns the first supported class, else the last; support rules use the documented names/versions",
 }
@@ -191,6 +194,28 @@ def run(ck, m):
     sq = m.get(I, "set_query_timeout")
     ck.ob("R4", sq, any(isinstance(s, ast.If) and norm(s.test) == "timeout <= 0.0" and isinstance(s.body[0], ast.Raise) for s in sq.body), "set_query_timeout must reject a non-positive timeout", stmt="set_query_timeout rejects <= 0")
 
+    # ---- R6 ----------------------------------------------------------------------------
+    wl = [n for n in body_walk(rt) if isinstance(n, ast.While)]
+    timed = next((w for w in wl if "more(input)" in norm(w.test)), None)
+    poll = next((w for w in wl if "more(input)" not in norm(w.test)), None)
+    ck.expect(timed is not None and poll is not None, "read_tty: the polling loop / timed loop not recognised")
+    if timed is not None and poll is not None:
+        conj = [norm(v) for v in flatten_boolop(timed.test, ast.And)]
+        ck.ob("R6", timed, conj == ["timeout < 0 or duration < timeout", "more(input)"], f"the timed loop must run while (timeout < 0 or duration < timeout) and more(input); found {conj}", stmt="read_tty: loop condition bounds the wait")
+        sel = [c for c in walk_local(timed) if isinstance(c, ast.Call) and call_name(c) == "select"]
+        ck.ob("R6", timed, len(sel) == 1 and len(sel[0].args) == 4 and norm(sel[0].args[3]) == "None if timeout < 0 else timeout - duration",
+              f"select() must wait at most the remaining time `timeout - duration` (None only for an infinite timeout); found `{norm(sel[0].args[3]) if sel and len(sel[0].args) == 4 else None}`", stmt="read_tty: select waits the remaining time only")
+        upd = [s_ for s_ in timed.body if isinstance(s_, ast.Assign) and norm(s_) == "duration = monotonic() - start"]
+        ck.ob("R6", timed, len(upd) == 1 and timed.body[-1] is upd[0], "the elapsed time must be recomputed at the end of every iteration", stmt="read_tty: duration recomputed per iteration")
+        ck.ob("R6", timed, any(isinstance(c, ast.Call) and norm(c) == "os.read(_tty_fd, 1)" for c in walk_local(timed)), "the timed loop reads byte-wise so that the stop predicate sees every byte", stmt="read_tty: byte-wise reads in the timed loop")
+        psel = [c for c in ast.walk(poll.test) if isinstance(c, ast.Call) and call_name(c) == "select"]
+        ck.ob("R6", poll, len(psel) == 1 and norm(psel[0].args[3]) == "0.0", "the non-blocking mode must poll with a zero select timeout", stmt="read_tty: non-blocking poll")
+        st0 = [s_ for s_ in body_walk(rt) if isinstance(s_, ast.Assign) and norm(s_) == "start = monotonic()"]
+        ck.ob("R6", rt, len(st0) == 1 and st0[0].lineno < timed.lineno, "the clock must start before the first wait", stmt="read_tty: start = monotonic() before waiting")
+        vm = [s_ for s_ in body_walk(rt) if isinstance(s_, ast.Assign) and norm(s_.targets[0]) == "new_attr[6][termios.VMIN]"]
+        ck.ob("R6", rt, len(vm) == 2 and norm(vm[0].value) == "0 if timeout is None else min" and norm(vm[1].value) == "0" and any(norm(t) == "min > 0" and b for t, b in guards(vm[1])),
+              "VMIN must be `min` only for the initial blocking read and 0 afterwards (a later read must never block on a byte count)", stmt="read_tty: VMIN reset after the min-read")
+
     # ---- R5 ----------------------------------------------------------------------------
     st_ = next((s for s in m.tree(IM).body if isinstance(s, ast.Assign) and norm(s.targets[0]) == "_styles"), None)
     ck.need(st_ is not None and isinstance(st_.value, ast.Tuple), "_styles tuple not found")
@@ -258,5 +283,7 @@ MUTANTS = [
     M("query-when-disabled", U, "query_terminal", "    if not _queries_enabled:\n        return None\n", "", {"R4"}),
     M("reorder-styles", IM, None, "_styles = (KittyImage, ITerm2Image, BlockImage)", "_styles = (ITerm2Image, KittyImage, BlockImage)", {"R5"}),
     M("kitty-version", KT, "KittyImage.is_supported", "version_tuple >= (0, 20, 0)", "version_tuple >= (0, 21, 0)", {"R5"}),
+    M("select-full-timeout", U, "read_tty", "None if timeout < 0 else timeout - duration", "None if timeout < 0 else timeout", {"R6"}),
+    M("duration-not-updated", U, "read_tty", "                    input.extend(os.read(_tty_fd, 1))\n                duration = monotonic() - start\n", "                    input.extend(os.read(_tty_fd, 1))\n", {"R6"}),
     M("twin-lambda-arg", U, "get_cell_size", "more=lambda s: not s.endswith(b\"c\"),", "more=lambda buf: not buf.endswith(b\"c\"),", twin=True),
 ]
